@@ -85,6 +85,16 @@ pub mod host {
 
     include!("sliced/updates.rs");
 
+    /// the same select! arm once more, hosted with SMALL cache limits (configuration constants of
+    /// batch_candidates: 2000 / 1000 in the repository) so that the trim is within reach
+    pub mod small_cache {
+        use super::*;
+        pub const PROCESS_CHANGES_THRESHOLD: usize = 1000;
+        pub const MAX_CACHE_ENTRIES: usize = 2;
+        pub const KEEP_CACHE_ENTRIES: usize = 1;
+        include!("sliced/arm_only.rs");
+    }
+
     #[cfg(kani)]
     mod proofs {
         use super::*;
